@@ -355,7 +355,7 @@ func genState(t *rapid.T) stateCase {
 	c := stateCase{Seed: rapid.Uint64().Draw(t, "seed"), Place: rapid.IntRange(0, 3).Draw(t, "place"), FlipLane: rapid.IntRange(0, 63).Draw(t, "flip")}
 	switch h.Pick(t, "kind", 6, 2, 3, 2) {
 	case 0:
-		c.Kind, c.Mode = "valid", h.Pick(t, "mode", 1, 2, 4, 1)
+		c.Kind, c.Mode = "valid", h.Pick(t, "mode", 1, 2, 4, 1, 2, 1)
 	case 1:
 		c.Kind, c.Mode = "valid", 2
 		c.Holes = rapid.SliceOfN(rapid.IntRange(0, stateWords-1), 1, 5).Draw(t, "holes")
@@ -381,6 +381,14 @@ func genState(t *rapid.T) stateCase {
 				c.L[i], c.H[i] = words[2*(i%period)], words[2*(i%period)+1]
 			}
 		}
+		// exceptions: a few words (first, second, middle, last, drawn) break the pattern
+		for k := h.Pick(t, "nexc", 2, 2, 1); k > 0; k-- {
+			p := h.OneOf(t, "excpos", 0, 0, 1, 364, stateWords-2, stateWords-1, rapid.IntRange(0, stateWords-1).Draw(t, "excany"))
+			c.L[p], c.H[p] = rapid.Uint64().Draw(t, "excl"), rapid.Uint64().Draw(t, "exch")
+			if rapid.Bool().Draw(t, "excvalid") {
+				c.H[p] |= ^c.L[p] // no undefined pair in that word
+			}
+		}
 	}
 	return c
 }
@@ -390,7 +398,7 @@ func TestStates(t *testing.T) {
 		Prop: "C20", Name: "states-" + buildVariant, N: 1200,
 		Gen: genState, Check: checkState,
 		Require: []string{"valid/mode2", "valid/mode1", "valid+undefined-pairs", "prng/with-undefined-pairs", "words/with-undefined-pairs", "words/no-undefined-pairs"},
-		Rule:    "bit-sliced states: valid states (64 independent trit lanes: equal / single-trit differences / all different / sparse), valid states with a few undefined (0,0) pairs, arbitrary words (pseudo-random with sparse/dense bias, all-zero, all-one, walking bit, alternating, short-period patterns); the build-selected transform and transformGeneric run with all four buffers flush against PROT_NONE guard regions (two placements, SetPanicOnFault, canaries) and must agree bit for bit, never emit (0,0), equal 81 rounds of scalar Curl-P per valid lane, and keep lanes independent; non-trivial = >= 2 distinct valid lanes or arbitrary words; distinct by case",
+		Rule:    "bit-sliced states: valid states (64 independent trit lanes: equal / single-trit differences / all different / sparse / all zero except one position or a short prefix), valid states with a few undefined (0,0) pairs, arbitrary words (pseudo-random with sparse/dense bias, all-zero, all-one, walking bit, alternating, short-period patterns, each optionally with a few exceptional words at the first, second, middle, last or a drawn position); the build-selected transform and transformGeneric run with all four buffers flush against PROT_NONE guard regions (two placements, SetPanicOnFault, canaries) and must agree bit for bit, never emit (0,0), equal 81 rounds of scalar Curl-P per valid lane, and keep lanes independent; non-trivial = >= 2 distinct valid lanes or arbitrary words; distinct by case",
 	})
 }
 
